@@ -404,7 +404,13 @@ def gen_plant(rnd, g, prices, T, name, nodes, chp=False, allow_mip=True):
             args['conversion_factor_power_heat'] = rnd.choice([0.5, 0.25, 1.0, 2.0])
         if rnd.random() < 0.6:
             args['max_share_heat'] = rnd.choice([0.5, 1.0, 2.0, 0.25])
-    return {'type': 'CHPAsset' if chp else 'Plant', 'name': name, 'nodes': nodes, 'args': args}
+    t = 'CHPAsset' if chp else 'Plant'
+    if chp and allow_mip and rnd.random() < 0.3:
+        # the derived class charging costs for running below a threshold (one more boolean per step)
+        t = 'CHPAsset_with_min_load_costs'
+        args['min_load_threshhold'] = q8(rnd, 0.5, 3)
+        args['min_load_costs'] = q8(rnd, 0.5, 3)
+    return {'type': t, 'name': name, 'nodes': nodes, 'args': args}
 
 
 NAMES_ADV = ['1', '11', 'A', 'AA', 'a b', '0', 'x_internal_y', 'n (m)', '10', '01', 'disp', 'nan']
